@@ -6,6 +6,7 @@ package main
 import (
 	"fmt"
 	"go/ast"
+	"go/constant"
 	"go/token"
 	"go/types"
 	"os"
@@ -25,17 +26,18 @@ import (
 const twigPath = "github.com/semihalev/twig"
 
 type World struct {
-	confinedMemo  map[string]bool
-	loadersMemo   map[*ssa.Function]bool
-	loadParts     map[*ssa.Function]bool
-	entryFuncMemo map[*ssa.Function][3]interface{}
-	Repo          string
-	Fset          *token.FileSet
-	Pkgs          []*packages.Package
-	Pkg           *packages.Package
-	Info          *types.Info
-	TPkg          *types.Package
-	Files         []*ast.File
+	tagHandlersMemo map[string]*types.Func
+	confinedMemo    map[string]bool
+	loadersMemo     map[*ssa.Function]bool
+	loadParts       map[*ssa.Function]bool
+	entryFuncMemo   map[*ssa.Function][3]interface{}
+	Repo            string
+	Fset            *token.FileSet
+	Pkgs            []*packages.Package
+	Pkg             *packages.Package
+	Info            *types.Info
+	TPkg            *types.Package
+	Files           []*ast.File
 
 	decls   map[*types.Func]*ast.FuncDecl
 	parents map[ast.Node]ast.Node
@@ -746,4 +748,78 @@ func (w *World) pathToCut(roots []*ssa.Function, target *ssa.Function, cut map[*
 		}
 	}
 	return nil
+}
+
+// tagHandlers: the block-tag handlers of the parser by tag name, however the table is written —
+// a map literal ("if": p.parseIf), assignments into a map (m["if"] = p.parseIf), or a switch
+// over the name that returns the method value (case "if": return p.parseIf).  A handler is a
+// method value of the package whose receiver is the parser.
+func (w *World) tagHandlers() map[string]*types.Func {
+	if w.tagHandlersMemo != nil {
+		return w.tagHandlersMemo
+	}
+	out := map[string]*types.Func{}
+	handlerOf := func(e ast.Expr) *types.Func {
+		sel, ok := ast.Unparen(e).(*ast.SelectorExpr)
+		if !ok {
+			return nil
+		}
+		f, ok := w.Info.Uses[sel.Sel].(*types.Func)
+		if !ok || f.Pkg() == nil || f.Pkg().Path() != twigPath || w.decls[f] == nil {
+			return nil
+		}
+		sig := f.Type().(*types.Signature)
+		if sig.Recv() == nil || !isNamed(deref(sig.Recv().Type()), twigPath, "Parser") {
+			return nil
+		}
+		if sig.Results().Len() != 2 {
+			return nil
+		}
+		return f
+	}
+	strConst := func(e ast.Expr) (string, bool) {
+		if tv, ok := w.Info.Types[e]; ok && tv.Value != nil && tv.Value.Kind() == constant.String {
+			return constant.StringVal(tv.Value), true
+		}
+		return "", false
+	}
+	for _, d := range w.sortedDecls() {
+		ast.Inspect(d.Body, func(n ast.Node) bool {
+			switch x := n.(type) {
+			case *ast.KeyValueExpr:
+				if k, ok := strConst(x.Key); ok {
+					if h := handlerOf(x.Value); h != nil {
+						out[k] = h
+					}
+				}
+			case *ast.AssignStmt:
+				if len(x.Lhs) == 1 && len(x.Rhs) == 1 {
+					if ix, ok := x.Lhs[0].(*ast.IndexExpr); ok {
+						if k, ok := strConst(ix.Index); ok {
+							if h := handlerOf(x.Rhs[0]); h != nil {
+								out[k] = h
+							}
+						}
+					}
+				}
+			case *ast.CaseClause:
+				for _, st := range x.Body {
+					ret, ok := st.(*ast.ReturnStmt)
+					if !ok || len(ret.Results) == 0 {
+						continue
+					}
+					if h := handlerOf(ret.Results[0]); h != nil {
+						for _, e := range x.List {
+							if k, ok := strConst(e); ok {
+								out[k] = h
+							}
+						}
+					}
+				}
+			}
+			return true
+		})
+	}
+	w.tagHandlersMemo = out
+	return out
 }
